@@ -7,6 +7,8 @@ mod common;
 pub mod creator;
 pub mod reader;
 pub mod tools;
+#[cfg(jubako_verif)]
+pub mod verif_api;
 
 #[cfg(feature = "clap")]
 pub mod cmd_utils;
